@@ -248,6 +248,43 @@ def client_codec(repo):
     return install, head
 
 
+# what ClientCodec::decode takes from the peer's Connection header (whitespace-free statement forms)
+PEER_CONN = {
+    # the tree: "do not use peer's keep-alive" - only a downgrade (close / upgrade) is taken
+    "ifletSome(conn_type)=req.conn_type(){self.inner.conn_type=ifconn_type==ConnectionType::KeepAlive{self.inner.conn_type}else{conn_type};}": "PeerDowngradeOnly",
+    # the peer's connection type is installed whatever it is
+    "ifletSome(conn_type)=req.conn_type(){self.inner.conn_type=conn_type;}": "PeerAlways",
+}
+ENC_PAT = {"ConnectionType::KeepAlive": "EcKeepAlive", "ConnectionType::Upgrade": "EcUpgrade", "ConnectionType::Close": "EcClose"}
+ENC_RES = {"ifinner.flags.contains(Flags::KEEP_ALIVE_ENABLED){ConnectionType::KeepAlive}else{ConnectionType::Close}": "EcKeepAliveIfEnabled",
+           "ConnectionType::Upgrade": "EcToUpgrade", "ConnectionType::Close": "EcToClose", "ConnectionType::KeepAlive": "EcToKeepAlive"}
+
+
+def client_conn(repo):
+    """(peer rule of ClientCodec::decode, arms of the `inner.conn_type = match head..connection_type()` of encode)"""
+    text = _strip_comments(open(os.path.join(repo, CLI_RS), encoding="utf-8").read())
+    impl = _block_after(text, r"impl Decoder for ClientCodec \{")
+    m = re.search(r"if let Some\(\(req, payload\)\) = self\.inner\.decoder\.decode\(src\)\? \{", impl)
+    if not m:
+        raise ValueError("`if let Some((req, payload)) = self.inner.decoder.decode(src)?` not found")
+    body = impl[m.end():_match_brace(impl, m.end() - 1) - 1]
+    k = body.find("if !self.inner.flags.contains(Flags::HEAD)")
+    if k < 0:
+        raise ValueError("HEAD test not found after the connection-type statement")
+    stmt = _norm(body[:k])
+    peer = _lookup(PEER_CONN, stmt, "connection-type statement of ClientCodec::decode")
+    if "conn_type" in body[k:]:
+        raise ValueError("conn_type is assigned again after the HEAD test")
+    enc = _block_after(text, r"impl Encoder<Message<\(RequestHeadType, BodySize\)>> for ClientCodec \{")
+    m = re.search(r"inner\.conn_type = match head\.as_ref\(\)\.connection_type\(\) \{", enc)
+    if not m:
+        raise ValueError("`inner.conn_type = match head.as_ref().connection_type()` not found in encode")
+    arms = _match_arms(enc[m.end():_match_brace(enc, m.end() - 1) - 1])
+    if len(re.findall(r"conn_type\s*=[^=]", enc)) != 1:
+        raise ValueError("conn_type is assigned more than once in encode")
+    return peer, [(_lookup(ENC_PAT, p, "request connection type"), _lookup(ENC_RES, b, "codec connection type")) for p, b in arms]
+
+
 def payload_codec(repo):
     text = _strip_comments(open(os.path.join(repo, CLI_RS), encoding="utf-8").read())
     impl = _block_after(text, r"impl Decoder for ClientPayloadCodec \{")
@@ -375,6 +412,9 @@ Inductive rp_cond := RIsPayload | RStatus101 | RVersion10 | RElse.
 Inductive rp_res := RRPayload | RRStreamEof | RRCloseAndPayloadEof | RRNone.
 Inductive pt_pat := PtNone | PtPayload | PtStream.
 Inductive install := INone | ISome | ISomeStream.
+Inductive peer_conn := PeerDowngradeOnly | PeerAlways.
+Inductive enc_pat := EcKeepAlive | EcUpgrade | EcClose.
+Inductive enc_res := EcKeepAliveIfEnabled | EcToUpgrade | EcToClose | EcToKeepAlive.
 Inductive pc_pat := PcChunk | PcEof | PcNone.
 Inductive pc_body := PcYieldChunk | PcTakeAndEnd | PcNoItem.
 Inductive pl_pat := PlSomeChunk | PlSomeEnd | PlStreamEnd.
@@ -425,8 +465,11 @@ def generate(repo, gen_dir):
 
     def s_client():
         inst, head = client_codec(repo)
+        peer, enc = client_conn(repo)
         return ["Definition CLIENT_INSTALL : list (pt_pat * install) := %s." % _list(inst),
-                "Definition CLIENT_INSTALL_HEAD : install := %s." % head], "%s head=%s" % (",".join("%s>%s" % r for r in inst), head)
+                "Definition CLIENT_INSTALL_HEAD : install := %s." % head,
+                "Definition CLIENT_PEER_CONN : peer_conn := %s.  (* what decode takes from the peer's Connection header *)" % peer,
+                "Definition CLIENT_ENCODE_CONN : list (enc_pat * enc_res) := %s." % _list(enc)], "%s head=%s peer=%s enc=%s" % (",".join("%s>%s" % r for r in inst), head, peer, ",".join("%s>%s" % r for r in enc))
 
     def s_payload_codec():
         ov, arms = payload_codec(repo)
